@@ -62,6 +62,7 @@ inductive Effect
   | markDone                -- pw.Piece.Done = true
   | crash (why : String)    -- t.crash(…): health-check panic, handler does not continue
   | setBit                  -- t.bitfield.Set(index)
+  | webseedStopAt           -- t.piecePicker.WebseedStopAt(src, index): truncate the web-seed range at this piece
   | restartWebseed          -- t.startPieceDownloaderForWebseed(src) after WebseedStopAt closed it
   | cancelOthers (n : Nat)  -- close + CancelPending + restart for each other downloader of the piece
   | updateInterest (n : Nat)-- t.updateInterestedState(pe) for every peer
@@ -103,8 +104,9 @@ def writeDone (i : In) : List Effect :=
     else
       [setBit] ++
       (if i.picker then
-        (if i.source ≠ .webseed ∧ i.webseedRequested ∧ i.webseedStopClosed
-          then [decWebseedActive, restartWebseed] else []) ++
+        (if i.source ≠ .webseed ∧ i.webseedRequested
+          then [webseedStopAt] ++ (if i.webseedStopClosed then [decWebseedActive, restartWebseed] else [])
+          else []) ++
         [cancelOthers i.otherDownloaders]
        else []) ++
       [updateInterest i.peers, sendHave i.peersLacking] ++
